@@ -528,7 +528,7 @@ func (r *runner) listRetention(label string) (clause, detail string, final bool)
 			return "wrong_bytes", fmt.Sprintf("%s: fetch of %s returned %q, ingested %q", label, id, clip(bodies[i]), clip(r.issued[id].Body())), true
 		}
 	}
-	r.logf("validate(retention) %s ok: %d served docs in %d fractions, %d known fractions", label, len(ids), len(served), len(names))
+	r.logf("validate(retention) %s ok: %d served docs in %d fractions, %d known fractions %v", label, len(ids), len(served), len(names), r.st.Fracs())
 	return "", "", true
 }
 
